@@ -45,6 +45,9 @@ def names_from(draw, pools, count):
 
 FANIN_WEIGHTS = [1, 2, 2, 2, 2, 3, 3, 3, 4, 4, 5, 6, 7]
 
+# set by the harness for the thorough tier: larger circuits than in the quick tier
+SIZE_BOOST = 1.0
+
 
 @st.composite
 def circuit_spec(
@@ -70,6 +73,9 @@ def circuit_spec(
     shuffle=True,
 ):
     """Draw a lint-clean circuit spec (see cgv.specs)."""
+    if SIZE_BOOST > 1.0:
+        max_gates = int(max_gates * SIZE_BOOST) + 1
+        max_inputs = max_inputs + 1
     n_in = draw(st.integers(min_inputs, max_inputs))
     n_const = draw(st.integers(0, 2)) if consts else 0
     n_gates = draw(st.integers(min_gates, max_gates))
